@@ -51,7 +51,15 @@ func reconcileBody(r *explore.Run, rep *report.R) {
 	x.UpdPol = r.Free(2, "defaultCompositionUpdatePolicy (unset, Manual)")
 	x.DelPol = x.UpdPol
 	existing := r.Bool("CRDs of an earlier revision of the XRD exist")
-	r.Logf("XRD: %s (existing CRDs: %v)", x, existing)
+	// Who owns the earlier CRDs: the XRD as their controller (what the
+	// controllers write), nobody (restored from a backup), or the XRD as a
+	// plain, non-controller owner (a restore tool's or a hand edit's doing).
+	// All three are the XRD's to control.
+	owners := 0
+	if existing {
+		owners = r.Free(3, "earlier CRDs owned by (xrd-controller, nobody, xrd-plain-owner)")
+	}
+	r.Logf("XRD: %s (existing CRDs: %v, owners %d)", x, existing, owners)
 
 	d := x.build(nil, -1)
 	collision := claimCollision(d)
@@ -75,6 +83,15 @@ func reconcileBody(r *explore.Run, rep *report.R) {
 						ConversionReviewVersions: []string{"v1"},
 						ClientConfig:             &extv1.WebhookClientConfig{Service: &extv1.ServiceReference{Namespace: "old", Name: "old", Path: &path, Port: &port}},
 					}}
+				}
+				switch owners {
+				case 1:
+					crd.OwnerReferences = nil
+				case 2:
+					for i := range crd.OwnerReferences {
+						crd.OwnerReferences[i].Controller = nil
+						crd.OwnerReferences[i].BlockOwnerDeletion = nil
+					}
 				}
 				s.Seed(crd)
 			}
@@ -174,7 +191,7 @@ func reconcileBody(r *explore.Run, rep *report.R) {
 	}
 	nt := ""
 	if x.anyCollision(composite) || x.anyCollision(claim) || collision != "" {
-		nt = report.Hash("reconcile", x.String(), existing)
+		nt = report.Hash("reconcile", x.String(), existing, owners)
 	}
 	rep.Eval("reconcile", report.Hash(outcome, derr != nil, oerr != nil), nt)
 }
